@@ -402,6 +402,27 @@ func ruleP1(p *Prog, r *Report, eng *Engine) {
 			}
 		}
 	}
+	// judge: a node built in a combinator (literal or constructor call) is judged once per call site of the
+	// combinator, with operator and sub-parsers bound; otherwise in place
+	judge := func(f *ssa.Function, at token.Pos, vals map[string]ssa.Value) {
+		if isCombinator(f) {
+			n := 0
+			for _, h := range funcs {
+				for _, hb := range h.Blocks {
+					for _, hin := range hb.Instrs {
+						if hc, ok := hin.(*ssa.Call); ok && hc.Call.StaticCallee() == f {
+							n++
+							pi.withSite(f, hc, func() { checkSite(f, hc.Pos(), vals) })
+						}
+					}
+				}
+			}
+			if n > 0 {
+				return
+			}
+		}
+		checkSite(f, at, vals)
+	}
 	for _, f := range funcs {
 		for _, b := range f.Blocks {
 			for _, in := range b.Instrs {
@@ -413,7 +434,7 @@ func ruleP1(p *Prog, r *Report, eng *Engine) {
 								vals[fld] = c.Call.Args[idx]
 							}
 						}
-						checkSite(f, c.Pos(), vals)
+						judge(f, c.Pos(), vals)
 					}
 					continue
 				}
@@ -433,24 +454,7 @@ func ruleP1(p *Prog, r *Report, eng *Engine) {
 						}
 					}
 				}
-				if isCombinator(f) {
-					// the literal of a combinator is judged once per call site, with operator and sub-parsers bound
-					n := 0
-					for _, h := range funcs {
-						for _, hb := range h.Blocks {
-							for _, hin := range hb.Instrs {
-								if hc, ok := hin.(*ssa.Call); ok && hc.Call.StaticCallee() == f {
-									n++
-									pi.withSite(f, hc, func() { checkSite(f, hc.Pos(), vals) })
-								}
-							}
-						}
-					}
-					if n > 0 {
-						continue
-					}
-				}
-				checkSite(f, al.Pos(), vals)
+				judge(f, al.Pos(), vals)
 			}
 		}
 	}
